@@ -22,3 +22,12 @@ package packagedeploy
 
 //@ func package-operator.run/internal/packages/internal/packagedeploy.(*DeploymentReconciler).sliceGarbageCollection
 //@   sink Client.Delete#1 requires [C14] !(name(arg1) in referencedSlices)
+
+//@ props C16
+//@ func package-operator.run/internal/packages/internal/packagedeploy.validateConstraints
+//@   at SetStatusCondition#1 ghost constraintsFailed() := true
+//@   ensures [C16] result == nil ==> constraintsFailed() == old(constraintsFailed())
+
+//@ func package-operator.run/internal/packages/internal/packagedeploy.(*PackageDeployer).Deploy
+//@   requires [C16] !constraintsFailed()
+//@   sink deploymentReconciler.Reconcile#1 requires [C16] !constraintsFailed()
